@@ -6,6 +6,19 @@ HERE = os.path.dirname(os.path.dirname(os.path.abspath(__file__)))
 PROPS = [json.loads(l)['id'] for l in open(os.path.join(HERE, 'properties.jsonl'))]
 
 CHECKS = {
+ 'C02': dict(category='proof', design_ref='DESIGN.md section 4 (C02)',
+    text='MinifyNameFactory._name_for_id is proved (real recursive body; its own contract is the induction hypothesis of the '
+         'recursive call, with a decreasing-argument obligation) to return the base-26 spelling B26(id) over the real NAME_CHARS; '
+         'B26 is proved injective and lower-case-alphabetic by induction (steps discharged by z3). get_short_name is proved, '
+         'for every factory state satisfying a representation invariant (each map value is B26(id) of a distinct id < next id; '
+         'no key and no value is reserved or in the keep file) and every name, to re-establish the invariant, keep every existing '
+         'entry, return kept names exactly as written, and -- the injectivity clause of the property -- to give any two '
+         'different names different outputs, including one kept and one renamed. That names AND labels go through this one '
+         'factory is read off the transition relation extracted from the real minifier loop.',
+    note='Names are int-coded abstract values (only equality / membership are used); reserved and keep sets are uninterpreted '
+         'predicates, so the proof holds for every keep file and every builtin list. ids < 2**30. __init__ / read_names_file '
+         '(file iteration) and termination of the skip loop are covered by a bounded native run only (labelled bounded).',
+    technique='contract-based deductive verification (representation invariant + quantified postconditions over a symbolic dict, induction lemmas; pyvc VCs, z3)'),
  'C01': dict(category='proof', design_ref='DESIGN.md section 4 (C01 / C19), Appendix B',
     text='The real loop body of LuaMinifyTokenWriter.to_lines (plus the helper methods it calls, inlined) is executed symbolically '
          'once per (abstract control state x refined token class) on every run, which yields the minifier\'s transition relation '
